@@ -1135,20 +1135,24 @@ func (app *App) init() *App {
 // the app, which if not set is the DefaultErrorHandler.
 func (app *App) ErrorHandler(ctx Ctx, err error) error {
 	var (
-		mountedErrHandler  ErrorHandler
-		mountedPrefixParts int
+		mountedErrHandler ErrorHandler
+		mountedPrefixLen  int
 	)
 
+	// The error goes to the innermost mounted app that configured a handler and whose
+	// prefix contains the path on a segment boundary. Candidate prefixes are nested in
+	// each other, so the longest one is the innermost and map order does not matter.
+	path := ctx.Path()
 	for prefix, subApp := range app.mountFields.appList {
-		if prefix != "" && strings.HasPrefix(ctx.Path(), prefix) {
-			parts := len(strings.Split(prefix, "/"))
-			if mountedPrefixParts <= parts {
-				if subApp.configured.ErrorHandler != nil {
-					mountedErrHandler = subApp.config.ErrorHandler
-				}
-
-				mountedPrefixParts = parts
-			}
+		if prefix == "" || subApp.configured.ErrorHandler == nil {
+			continue
+		}
+		if !strings.HasPrefix(path, prefix) || (len(path) > len(prefix) && path[len(prefix)] != '/' && prefix[len(prefix)-1] != '/') {
+			continue
+		}
+		if len(prefix) > mountedPrefixLen {
+			mountedErrHandler = subApp.config.ErrorHandler
+			mountedPrefixLen = len(prefix)
 		}
 	}
 
